@@ -360,6 +360,16 @@ pub fn run(tier: Tier) -> Report {
     items.extend(statement_faults(tier));
     items.extend(declaration_faults());
     items.extend(type_equivalence_faults());
+    // the program beyond the small bounds with one undefined variable in its last statement
+    // (a document above 4 KiB: diagnostics far from the start, in every line-end convention)
+    {
+        let mut p = progs::scale_program(34, 34, 70);
+        if let Some(RDecl::Proc { body, .. }) = p.decls.last_mut() {
+            body.push(RStmt::Assign(vname("zz"), eint(1)));
+        }
+        let f = p.decls.len() - 1;
+        items.push(Item { family: "scale-fault", program: p, focus_decl: f });
+    }
     let evals = AtomicU64::new(0);
     let stats = std::sync::Mutex::new(Stats::default());
     let fails: Vec<Failure> = items
@@ -368,13 +378,13 @@ pub fn run(tier: Tier) -> Report {
         .flat_map_iter(|(i, it)| {
             let pr = print_program(&it.program);
             let vars = doc_variants(&pr, 6);
-            let nvar = if it.family == "declaration-faults" || it.family == "type-equivalence" || (it.family == "scenario-permutations" || progs::always_included(it.family)) { 7 } else { 2 };
+            let nvar = if it.family == "declaration-faults" || it.family == "scale-fault" || it.family == "type-equivalence" || (it.family == "scenario-permutations" || progs::always_included(it.family)) { 7 } else { 2 };
             let mut out = vec![];
             for k in 0..nvar {
                 let (layout, gaps) = vars[(i + k) % vars.len()].clone();
                 let doc = Doc::new(it, layout, gaps);
                 evals.fetch_add(1, Ordering::Relaxed);
-                let (f, class, rule) = eval_doc(&doc, k == 0 && i % 4 == 0);
+                let (f, class, rule) = eval_doc(&doc, (k == 0 && i % 4 == 0) || it.family == "scale-fault");
                 if k == 0 {
                     let mut st = stats.lock().unwrap();
                     match class {
